@@ -398,9 +398,9 @@ class H2Protocol:
             await self._flush()
             return
 
-        if method == "CONNECT" and protocol is not None and protocol.lower() != b"websocket":
-            # An extended CONNECT (RFC 8441) for something other than a
-            # WebSocket, which is all that is supported.
+        if method == "CONNECT" and (protocol is None or protocol.lower() != b"websocket"):
+            # Only the extended CONNECT (RFC 8441) for a WebSocket is
+            # supported, not plain tunnels or other protocols.
             self.connection.send_headers(
                 request.stream_id,
                 [(b":status", b"400"), (b"content-length", b"0")]
